@@ -24,6 +24,26 @@ mod ops;
 mod reg;
 mod v14;
 
+/// tracking allocator: the largest single request since the last reset; requests above 256 MiB are refused (the process then aborts in
+/// handle_alloc_error, which the driver observes as a crash) - used by the memory clause of C14
+pub struct Tracking;
+pub static MAX_REQ: std::sync::atomic::AtomicUsize = std::sync::atomic::AtomicUsize::new(0);
+unsafe impl std::alloc::GlobalAlloc for Tracking {
+    unsafe fn alloc(&self, l: std::alloc::Layout) -> *mut u8 {
+        MAX_REQ.fetch_max(l.size(), std::sync::atomic::Ordering::Relaxed);
+        if l.size() > (1 << 28) { return std::ptr::null_mut(); }
+        std::alloc::System.alloc(l)
+    }
+    unsafe fn dealloc(&self, p: *mut u8, l: std::alloc::Layout) { std::alloc::System.dealloc(p, l) }
+    unsafe fn realloc(&self, p: *mut u8, l: std::alloc::Layout, n: usize) -> *mut u8 {
+        MAX_REQ.fetch_max(n, std::sync::atomic::Ordering::Relaxed);
+        if n > (1 << 28) { return std::ptr::null_mut(); }
+        std::alloc::System.realloc(p, l, n)
+    }
+}
+#[global_allocator]
+static GLOBAL: Tracking = Tracking;
+
 fn leak(s: &str) -> &'static str {
     Box::leak(s.to_owned().into_boxed_str())
 }
